@@ -113,6 +113,8 @@ def gen_seq(g, depth, nown, ninh, fresh, steps, in_with, handler=False):
         acts += ["read", "active"]
     if steps >= 2 and rng.random() < 0.25:
         acts += ["finish"] * 3
+    if steps >= 1 and rng.random() < 0.12:
+        acts += ["reyld"]
     a = rng.choice(acts)
     nxt = lambda no, fr, st=steps + 1: gen_seq(g, depth, no, ninh, fr, st, in_with, handler)
     if a == "finish":
@@ -158,9 +160,22 @@ def gen_seq(g, depth, nown, ninh, fresh, steps, in_with, handler=False):
         return ["syncfut", r, nxt(nown, fr), gen_handler(g, depth, nown, ninh, in_with)]
     if a == "with":
         c = ["plain"] if rng.random() < 0.4 else ["override", rng.randrange(2), rng.randint(1, 9)]
+        if rng.random() < 0.5:
+            # single-path block (no try/except inside, so only the success path reaches `endwith`): the number of
+            # futures it creates is known and the continuation can be arbitrary
+            saved = g.handlers
+            g.handlers = 0.0
+            inner = gen_seq(g, depth, nown, ninh, fresh, steps + 1, True, handler)
+            g.handlers = saved
+            outs = count_own(inner, nown)
+            if len(outs) == 1:
+                return ["with", c, inner, gen_seq(g, depth, outs.pop(), ninh, [], steps + 2, in_with, handler)]
+            return ["with", c, inner, finish(g, in_with)]
         inner = gen_seq(g, depth, nown, ninh, fresh, steps + 1, True, handler)
         # futures created inside the block are not referenced after it (own indices would depend on the path)
         return ["with", c, inner, finish_after_with(g, depth, nown, ninh, in_with, inner)]
+    if a == "reyld":
+        return ["reyld", nxt(nown, fresh), gen_handler(g, depth, nown, ninh, in_with)]
     if a == "read":
         return ["read", rng.randrange(2), nxt(nown, fresh)]
     if a == "active":
@@ -187,6 +202,9 @@ def count_own(body, nown):
         elif op == "yld":
             walk(b[2], n)
             walk(b[3], n)
+        elif op == "reyld":
+            walk(b[1], n)
+            walk(b[2], n)
         elif op == "sync":
             walk(b[3], n + 1)
             walk(b[4], n + 1)
@@ -226,7 +244,9 @@ def gen_handler(g, depth, nown, ninh, in_with):
         return finish(g, in_with)
     if r < 0.6:
         return ["reraise"]
-    return gen_seq(g, depth, nown, ninh, [], 7, in_with, True)
+    if r < 0.8:
+        return gen_seq(g, depth, nown, ninh, [], 7, in_with, True)
+    return gen_seq(g, depth, nown, ninh, [], 5, in_with, False)   # a handler that goes on working (may yield, enter contexts)
 
 
 PROFILES = {
@@ -270,7 +290,7 @@ def gen_case(rng, profile="full", size=None, ntops=1):
 def walk(body, f):
     f(body)
     op = body[0]
-    kids = {"spawn": [1, 3], "item": [4], "const": [2], "errfut": [2], "lazy": [2], "yld": [2, 3], "sync": [1, 3, 4],
+    kids = {"spawn": [1, 3], "item": [4], "const": [2], "errfut": [2], "lazy": [2], "yld": [2, 3], "reyld": [1, 2], "sync": [1, 3, 4],
             "syncfut": [2, 3], "with": [2, 3], "read": [2], "active": [1]}.get(op, [])
     for i in kids:
         walk(body[i], f)
@@ -294,7 +314,7 @@ def stats(case):
 def shrink_body(body):
     """candidates: replace a subterm by one of its continuations, or by a leaf"""
     op = body[0]
-    kids = {"spawn": [1, 3], "item": [4], "const": [2], "errfut": [2], "lazy": [2], "yld": [2, 3], "sync": [1, 3, 4],
+    kids = {"spawn": [1, 3], "item": [4], "const": [2], "errfut": [2], "lazy": [2], "yld": [2, 3], "reyld": [1, 2], "sync": [1, 3, 4],
             "syncfut": [2, 3], "with": [2, 3], "read": [2], "active": [1]}.get(op, [])
     if op in ("read", "active"):
         yield body[kids[0]]
@@ -354,6 +374,9 @@ def well_scoped(body, nown=0, ninh=0, in_with=0):
             if not y_ok(b[1], n):
                 return None
             a, c = go(b[2], n), go(b[3], n)
+            return None if a is None or c is None else a | c
+        if op == "reyld":
+            a, c = go(b[1], n), go(b[2], n)
             return None if a is None or c is None else a | c
         if op == "sync":
             if not all(ref_ok(r, n) for r in b[2]) or not well_scoped(b[1], 0, len(b[2])):
